@@ -181,7 +181,7 @@ def oracle(tree, cfg):
         st = os.stat(p)
         if not stat.S_ISREG(st.st_mode):
             continue
-        if st.st_size < 1:
+        if st.st_size < cfg.get("min_size", 1) or st.st_size > cfg.get("max_size", 1 << 62):      # --min / --max: both inclusive, on the raw length
             continue
         with open(p, "rb") as fh:
             data = fh.read()
@@ -220,6 +220,10 @@ def group_args(cfg, fmt="json"):
         a += ["--transform", TRANSFORMS[cfg["transform"]][0]]
     if cfg.get("skip_content"):
         a.append("--skip-content-hash")
+    if cfg.get("min_size") is not None:
+        a += ["--min", str(cfg["min_size"])]
+    if cfg.get("max_size") is not None:
+        a += ["--max", str(cfg["max_size"])]
     for t in cfg.get("threads", []):
         a += ["--threads", t]
     return a
@@ -231,6 +235,14 @@ def eff_filter(cfg):
     if cfg.get("rf_under") is not None:
         return "under", cfg["rf_under"]
     return "over", (1 if cfg.get("rf_over") is None else cfg["rf_over"])
+
+
+def decode_path(p):
+    """A path field of the csv / fdupes formats back to the file name; a field that is not valid STFU-8 names no file (kept, marked)."""
+    try:
+        return os.fsdecode(dd.stfu8_decode(p))
+    except ValueError:
+        return "<not STFU-8>" + p
 
 
 def parse_text_report(out):
@@ -274,7 +286,7 @@ def parse_csv(out):
     rows = list(rd)
     for row in rows[1:]:
         if len(row) >= 4:
-            groups.append({"len": int(row[0]), "hash": row[1], "count": int(row[2]), "paths": row[3:]})
+            groups.append({"len": int(row[0]), "hash": row[1], "count": int(row[2]), "paths": [decode_path(p) for p in row[3:]]})
     return groups
 
 
@@ -285,7 +297,7 @@ def parse_fdupes(out):
             if groups[-1]:
                 groups.append([])
         else:
-            groups[-1].append(line)
+            groups[-1].append(decode_path(line))
     return [g for g in groups if g]
 
 
